@@ -192,45 +192,8 @@ func propC04(c *Ctx) {
 
 	c.Rule("C04.R6", func() { routedEventsForwarded(c, "C04.R6") })
 
-	c.Rule("C04.R5", func() {
-		// the L1 verifier must hash the event's fields verbatim: any transformation between the
-		// L2 event (which the off-chain tree builder uses) and the L1 leaf strands recorded withdrawals
-		fw := hostHandler(c, "FinalizeTokenWithdrawal")
-		o := c.Ob("C04.R5", "FinalizeTokenWithdrawal: the proven leaf is GenerateWithdrawalHash over the verbatim request fields (bridge id, sequence, from, to, denom, amount) - the same strings the L2 event carries")
-		for _, p := range c.Paths(fw, hostPO) {
-			o.Paths++
-			o.Facts += p.NFacts()
-			i := payoutIdx(p)
-			if i < 0 {
-				continue
-			}
-			o.Sites++
-			found, why := false, ""
-			for j := 0; j < i; j++ {
-				if p.Events[j].Kind != EvFact || !p.Events[j].Pol {
-					continue
-				}
-				args := callAtom(p.Events[j].Cond, "bytes.Equal")
-				for _, a := range args {
-					a = strip(a)
-					if a.Op == "call" && a.Name == proofFn {
-						if ok, w := isClaimHash(a.Args[0]); ok {
-							found = true
-						} else {
-							why = w
-						}
-					}
-				}
-			}
-			if !found {
-				o.Fail(c.evPos(&p.Events[i]), "the leaf verified on L1 is not built from the verbatim claim fields ("+why+"): withdrawals recorded on L2 with the original strings cannot be proven", c.Dump(p, i))
-			}
-		}
-		if o.Sites == 0 {
-			o.Fail(c.W.Pos(fw.Pos()), "no payout path", nil)
-		}
-		c.Extra["transport_agreement"] = "L2 event attributes (from,to,denom->base_denom,amount,l2_sequence) are the verbatim inputs of the L1 leaf (C04.R2 + C04.R5)"
-	})
+	c.Rule("C04.R5", func() { verbatimLeaf(c, "C04.R5") })
+	c.Extra["transport_agreement"] = "L2 event attributes (from,to,denom->base_denom,amount,l2_sequence) are the verbatim inputs of the L1 leaf (C04.R2 + C04.R5)"
 
 	c.Rule("C04.R4", func() {
 		// acceptance mismatch table: L1 Validate rejection conditions vs. what L2 accepted
@@ -556,4 +519,47 @@ func propC08(c *Ctx) {
 			o.Fail("-", "fewer than 3 derivation uses examined", nil)
 		}
 	})
+}
+
+// verbatimLeaf: the leaf the L1 verifier proves is GenerateWithdrawalHash over the claim's own
+// fields, byte for byte (shared by C04 - recorded withdrawals stay provable - and C17 - the
+// chain computes the commitment an independent implementation computes for the same claim).
+func verbatimLeaf(c *Ctx, rule string) {
+		// the L1 verifier must hash the event's fields verbatim: any transformation between the
+		// L2 event (which the off-chain tree builder uses) and the L1 leaf strands recorded withdrawals
+		fw := hostHandler(c, "FinalizeTokenWithdrawal")
+		o := c.Ob(rule, "FinalizeTokenWithdrawal: the proven leaf is GenerateWithdrawalHash over the verbatim request fields (bridge id, sequence, from, to, denom, amount) - the same strings the L2 event carries")
+		for _, p := range c.Paths(fw, hostPO) {
+			o.Paths++
+			o.Facts += p.NFacts()
+			i := payoutIdx(p)
+			if i < 0 {
+				continue
+			}
+			o.Sites++
+			found, why := false, ""
+			for j := 0; j < i; j++ {
+				if p.Events[j].Kind != EvFact || !p.Events[j].Pol {
+					continue
+				}
+				args := callAtom(p.Events[j].Cond, "bytes.Equal")
+				for _, a := range args {
+					a = strip(a)
+					if a.Op == "call" && a.Name == proofFn {
+						if ok, w := isClaimHash(a.Args[0]); ok {
+							found = true
+						} else {
+							why = w
+						}
+					}
+				}
+			}
+			if !found {
+				o.Fail(c.evPos(&p.Events[i]), "the leaf verified on L1 is not built from the verbatim claim fields ("+why+"): withdrawals recorded on L2 with the original strings cannot be proven", c.Dump(p, i))
+			}
+		}
+		if o.Sites == 0 {
+			o.Fail(c.W.Pos(fw.Pos()), "no payout path", nil)
+		}
+		c.Extra["transport_agreement"] = "L2 event attributes (from,to,denom->base_denom,amount,l2_sequence) are the verbatim inputs of the L1 leaf (C04.R2 + C04.R5)"
 }
